@@ -813,7 +813,19 @@ Definition cs_after_sub (r : csyn * list Z) (its : list CharClass.item) : pr (cs
 (* 1855-1907: the character ch (translated = came from an escape) at cursor q *)
 Definition cs_generic (ch : Z) (translated : bool) (q : list Z) (items : list CharClass.item) : pr (csyn * list Z) :=
   if inrange then
-    if so then cs_next q chprev false items sub
+    if so then
+      (* scan-only (countCaptures): a subtraction written where a range was expected, [a-[b]], is skipped as a
+         unit, its error dropped like in the "-[" branch below (since a5090c5; before that fix the pre-scan went on
+         inside the subtracted class and closed the outer class at its first ']': `(?n:[a-[](]])(b)`) *)
+      if (ch =? 91) && negb translated && negb first then
+        match cs_nested true q with
+        | POk (_, q3) => cs_next q3 chprev false items sub
+        | PE _ q3 => cs_next q3 chprev false items sub
+        | PO => PO
+        | PC w => PC w
+        | PF => PF
+        end
+      else cs_next q chprev false items sub
     else if (ch =? 91) && negb translated && negb first then
       pdo r <- cs_nested false q ; cs_after_sub r (IRange chprev chprev :: items)
     else if ch <? chprev then PE PE_ReversedCharRange q
@@ -1508,7 +1520,8 @@ Definition add_run (st : mst) (run : list Z) (isq : bool) : pr mst :=
 (* "(" (594-615); p3 = the pattern after it *)
 Definition round_open (tb : captab) (mco : bool) (st1 : mst) (p3 : list Z) : pr (mst * option (list Z * bool)) :=
   let o := ms_o st1 in
-  if useRE2 o && hd_is p3 63 && nth_is 1 p3 80 && nth_is 2 p3 61 then
+  (* `!p.ignoreNextParen` since 4f8aca1: the parenthesis that is the condition of (?( ... ) goes to scanGroupOpen *)
+  if useRE2 o && negb (ms_ign st1) && hd_is p3 63 && nth_is 1 p3 80 && nth_is 2 p3 61 then
     pdo r <- python_backref tb o (skipn 3 p3) ;
     let '(x, q) := r in
     pdo r2 <- after_unit (set_unit st1 (Some x)) q ;
